@@ -283,7 +283,11 @@ func confirmAndMinimise(t *testing.T, eng Engine, prop, camp string, f RunFunc, 
 	if infra != "" || final.Viol == nil || final.Viol.Check != class {
 		// fall back to the unminimised tape
 		best = vals
-		final, _ = Execute(t, prop, camp, f, NewReplayTape(seed, best), true)
+		var infra3 string
+		final, infra3 = Execute(t, prop, camp, f, NewReplayTape(seed, best), true)
+		if infra3 != "" || final.Viol == nil {
+			return nil, fmt.Sprintf("violation %s of run %d replayed once but not a second time: state carried between runs of one worker process", class, i)
+		}
 	}
 	// trim trailing zeros (reads past the end are zero anyway)
 	for len(best) > 0 && best[len(best)-1] == 0 {
